@@ -17,6 +17,17 @@ Definition level (e : expr) : nat :=
   | _ => 10
   end.
 
+(* a pattern concatenation: a regex literal, then `+` regex literals or bare
+   identifiers (const fragments) *)
+Definition simple_part (x : expr) : bool :=
+  match x with Atom (ARegex _) => true | Id _ ENil => true | _ => false end.
+Fixpoint is_concat (e : expr) : bool :=
+  match e with
+  | Atom (ARegex _) => true
+  | Bin OPlus l x => is_concat l && simple_part x
+  | _ => false
+  end.
+
 Fixpoint raw (e : expr) : list tk :=
   let pr (req : nat) (x : expr) :=
     if Nat.ltb (level x) req then TLP :: raw x ++ [TRP] else raw x in
@@ -26,7 +37,8 @@ Fixpoint raw (e : expr) : list tk :=
   | Id x idx => TId x :: TLB :: rawl idx ++ [TRB]
   | Call f ENil => [TBuiltin f; TLP; TRP]
   | Call f args => TBuiltin f :: TLP :: rawl args ++ [TRP]
-  | Bin o l r => pr (lreq o) l ++ TOp o :: pr (rreq o) r
+  | Bin o l r =>
+      pr (lreq o) l ++ TOp o :: (if is_match o && is_concat r then raw r else pr (rreq o) r)
   | Not x => TNot :: pr 8 x
   | Post b x => pr 9 x ++ [TPost b]
   end
